@@ -1,6 +1,8 @@
 import CJ.Drv.Loop
-/-! Driver for C15 (stub until the models are written). -/
+import CJ.Drv.Codec
+/-! Driver for C15: the codec models. -/
 open CJ.Drv
 
 def main : IO Unit := runDriver fun
+  | "codec" :: args => Codec.handle args
   | _ => none
